@@ -806,6 +806,10 @@ func (gen *Generator) GenerateAssignment(expr *SexpPair, assignPos int) error {
 		if err != nil {
 			return err
 		}
+		// each def leaves its value; the assignment as a whole leaves only the last.
+		if i < len(rhs)-1 {
+			gen.AddInstruction(PopInstr(0))
+		}
 	}
 	return nil
 }
